@@ -75,6 +75,17 @@ def programs(tier):
         plain = ("xfer", msq, "it1")
         out += [("chain", plain, f1), ("chain", f1, plain), ("chain", ("proj", f2, ("a", "b", "c")), plain), ("chain", plain, ("proj", f2, ("a", "b", "c"))),
                 ("chain", f1, ("xfer", ("sel", msq, ("lt", meprogs.A, meprogs.B)), "it1"))]
+    # a tree that an earlier process() returned (its transfers carry payloads) gets one more operation with the source engine
+    # preferred - backtracking re-applies the transfer to a new upstream tree - and is processed again
+    K2 = ("lt", meprogs.A, ("lit", "$k2"))
+    for leaf, there, back in ((S, "it1", "sq"), (X, "sq", "it1"), (X, "it2", "it1")):
+        for mid in (("xfer", ("sel", leaf, ("gt", meprogs.A, ("lit", "$k1"))), there), ("dedup", ("xfer", leaf, there))):
+            done = ("proc", mid)
+            for o in ((back, True, False, False), (back, True, True, False)):
+                if mid[0] != "dedup":  # (a projection moved upstream of a deduplication is the known finding D3 of C03/C04)
+                    out.append(("proj", done, ("a", "b"), o))
+                out += [("sel", done, K2, o), ("sort", done, ((meprogs.B, False), (meprogs.A, True), (meprogs.C, True)), o),
+                        ("xfer", ("sel", done, K2, o), back) if o[2] is False else ("mat", ("sel", done, K2, o), "mp")]
     selS = ("sel", S, ("gt", meprogs.A, ("lit", "$k1")))
     selX = ("sel", X, ("gt", meprogs.A, ("lit", "$k1")))
     for empty, live, other in ((("leaf", "0s"), selS, "it1"), (("leaf", "0i"), selX, "sq"), (("leaf", "0i"), selX, "it2")):
